@@ -155,7 +155,7 @@ def collect_information(exprs):  # noqa: C901
                 if isinstance(num.data, str) and num.data.isdigit():
                     __indices.add(num.id)
         # Determine sort of symbols introduced by let.
-        if is_operator_app(node, 'let'):
+        if is_operator_app(node, 'let') and len(node) > 1:
             for var in node[1]:
                 if len(var) != 2:
                     continue
@@ -164,7 +164,8 @@ def collect_information(exprs):  # noqa: C901
                     __sort_lookup[sym.data] = get_sort(term)
                     __definition_node_ids.add(sym.id)
         # Determine sort of symbols introduced by quantifiers
-        if is_operator_app(node, 'exists') or is_operator_app(node, 'forall'):
+        if (is_operator_app(node, 'exists')
+                or is_operator_app(node, 'forall')) and len(node) > 1:
             for var in node[1]:
                 if len(var) != 2:
                     continue
